@@ -4,8 +4,14 @@
    route by which a configuration reaches setup_config (fresh input file / restart file) makes
    no difference.
    This file only restates the results proved in proofs/ConfigP.v (model: model/ConfigM.v,
-   the code with proposed_fixes/C18_check_config.diff applied), so that the statements cannot
-   be weakened silently; each is followed by Print Assumptions.  All statements are
+   the code with proposed_fixes/C18_check_config.diff and C18_short_ensemble_engines.diff
+   applied), so that the statements cannot be weakened silently; each is followed by Print
+   Assumptions.  The property's list ([valid]) has nine clauses: at least two interfaces, sorted,
+   no duplicates, workers <= ensembles - 1, a shooting move per ensemble, the cap clause, an
+   ensemble_engines entry per ensemble ([v_englen]: an explicit list may be longer than the
+   interfaces but not shorter), every named engine defined, lambda_minus_one below lambda_0.
+   The code before the second repair ([check_config_before_fix], the same statements without the
+   length test) is kept in the model and refuted at the end.  All statements are
    unbounded: any interface list over Q, any worker count, any move list, any cap,
    lambda_minus_one, quantis flag, engine lists and engine tables. *)
 From Coq Require Import ZArith QArith List Bool Sorted SetoidList.
@@ -180,6 +186,70 @@ Theorem C18_sampling_starts_iff : forall steps cur c,
 Proof. exact sampling_starts_iff. Qed.
 Print Assumptions C18_sampling_starts_iff.
 
+(* ---- the engine list has an entry per ensemble (clause [v_englen]) ---- *)
+
+(* accepted => initialises, as far as the configuration decides it: for each of the n ensembles the
+   first picks (REPEX_state.prep_md_items: ens_engs[ens_num + 1], [pick_engines]) find an entry
+   in range, and every engine it names has a table *)
+Theorem C18_accepted_picks_defined : forall c,
+  check_config c = Ok -> forall i, (i < length (interfaces c))%nat ->
+  exists l, pick_engines c i = Some l /\ forall e, In e l -> In e (map fst (sections c)).
+Proof. exact accepted_picks_defined. Qed.
+Print Assumptions C18_accepted_picks_defined.
+
+(* a list shorter than the interfaces is a configuration error that names a violated clause ... *)
+Theorem C18_short_engine_list_rejected : forall c ee,
+  ens_engs c = Some ee -> (length ee < length (interfaces c))%nat ->
+  exists k, check_config c = ConfigError k /\ err_holds c k.
+Proof. exact short_engine_list_rejected. Qed.
+Print Assumptions C18_short_engine_list_rejected.
+
+(* ... also through setup_config: the defaults keep an explicit (non-empty) list as it is, so the
+   file is invalid after the defaults (C18_invalid_never_starts, C18_fresh_rejects_invalid and
+   C18_restart_rejects_invalid then apply: configuration error by either route, no sampling);
+   the list the defaults build themselves has exactly one entry per interface *)
+Theorem C18_setup_short_engine_list_invalid : forall c ee,
+  ens_engs c = Some ee -> ee <> [] -> (length ee < length (interfaces c))%nat ->
+  ~ valid (normalise c).
+Proof. exact setup_short_engine_list_invalid. Qed.
+Print Assumptions C18_setup_short_engine_list_invalid.
+
+Theorem C18_default_engine_list_length : forall c,
+  has_ens_engs c = false ->
+  exists ee, ens_engs (normalise c) = Some ee /\ length ee = length (interfaces c).
+Proof. exact default_engine_list_length. Qed.
+Print Assumptions C18_default_engine_list_length.
+
+(* the code before proposed_fixes/C18_short_ensemble_engines.diff: it differs from the repaired
+   code only on a short engine list; whatever it accepted beyond the repaired code leaves an
+   ensemble without an entry (IndexError at its first pick); and it did accept such a file - three
+   interfaces, ensemble_engines = [["engine"]] - by either route, while the repaired code
+   answers with the configuration error *)
+Theorem C18_before_fix_differs_only_on_short_lists : forall c,
+  check_config_before_fix c = check_config c \/
+  (check_config c = ConfigError EEngineListShort /\
+   exists ee, ens_engs c = Some ee /\ (length ee < length (interfaces c))%nat).
+Proof. exact before_fix_cases. Qed.
+Print Assumptions C18_before_fix_differs_only_on_short_lists.
+
+Theorem C18_before_fix_accepts : forall c,
+  check_config_before_fix c = Ok ->
+  check_config c = Ok \/
+  (check_config c = ConfigError EEngineListShort /\
+   exists i, (i < length (interfaces c))%nat /\ pick_engines c i = None).
+Proof. exact before_fix_accepts. Qed.
+Print Assumptions C18_before_fix_accepts.
+
+Theorem C18_short_engine_list_before_fix_refuted :
+  exists c i,
+    snd (setup_config_g false c) = Ok /\
+    sampling_starts (setup_from_g false 10 None c) /\
+    sampling_starts (setup_from_g false 10 (Some (mkCur 4 true)) c) /\
+    (i < length (interfaces (normalise c)))%nat /\ pick_engines (normalise c) i = None /\
+    snd (setup_config c) = ConfigError EEngineListShort /\ ~ valid (normalise c).
+Proof. exact short_engine_list_before_fix_refuted. Qed.
+Print Assumptions C18_short_engine_list_before_fix_refuted.
+
 (* non-vacuity.  A wire-fencing configuration with a cap is valid and accepted ... *)
 Definition ex_sections : list (name * section) :=
   [(name_engine, mkS (Some OtherClass) (Some 0%Z) 7%Z)].
@@ -266,4 +336,39 @@ Example C18_example_order :
 Proof.
   cbn zeta. repeat split; try (vm_compute; reflexivity).
   intro V. apply validb_spec in V. vm_compute in V. discriminate.
+Qed.
+
+(* ... and the engine list: for three interfaces every length 0 .. 4 of an explicit list of defined
+   engines.  The empty list counts as absent (defaults, accepted), one and two entries are the
+   configuration error of the length clause - by the fresh and by the restart route -, three and
+   four entries are accepted and every ensemble finds its entry.  The length test comes after the
+   cap tests and before the undefined-engine test, as in the code. *)
+Definition ex_engs (ee : list (list name)) (cp : option Q) : config :=
+  mkC [0; 1; 2] 1%Z [Sh; Sh; Sh] cp None None None None (Some ee) ex_sections.
+
+Example C18_example_engine_list :
+  let e := [name_engine] in
+  snd (setup_config (ex_engs [] None)) = Ok /\
+  snd (setup_config (ex_engs [e] None)) = ConfigError EEngineListShort /\
+  snd (setup_config (ex_engs [e; e] None)) = ConfigError EEngineListShort /\
+  snd (setup_config (ex_engs [e; e; e] None)) = Ok /\
+  snd (setup_config (ex_engs [e; e; e; e] None)) = Ok /\
+  (exists c', setup_from 20 None (ex_engs [e; e] None) = Some (c', ConfigError EEngineListShort)) /\
+  (exists c', setup_from 20 (Some (mkCur 4 true)) (ex_engs [e; e] None)
+     = Some (c', ConfigError EEngineListShort)) /\
+  validb (normalise (ex_engs [e; e] None)) = false /\
+  validb (normalise (ex_engs [e; e; e; e] None)) = true /\
+  (forall i, (i < 3)%nat -> pick_engines (normalise (ex_engs [e; e; e; e] None)) i = Some e) /\
+  pick_engines (normalise (ex_engs [e; e] None)) 2 = None /\
+  (* order of the tests: cap, then length, then undefined engine *)
+  snd (setup_config (ex_engs [e] (Some 5))) = ConfigError ECapHigh /\
+  snd (setup_config (ex_engs [[77%Z]] None)) = ConfigError EEngineListShort /\
+  snd (setup_config (ex_engs [e; e; [77%Z]] None)) = ConfigError (EEngineUndef 77%Z) /\
+  (* the code before the repair let the short lists through *)
+  snd (setup_config_g false (ex_engs [e] None)) = Ok /\
+  snd (setup_config_g false (ex_engs [e; e] None)) = Ok.
+Proof.
+  cbn zeta. repeat split; try (vm_compute; reflexivity); try (eexists; vm_compute; reflexivity).
+  intros i Hi. destruct i as [|[|[|i]]]; try reflexivity.
+  exfalso. do 3 apply Nat.succ_lt_mono in Hi. inversion Hi.
 Qed.
